@@ -1,4 +1,140 @@
+//! tv-sim: correspondence / oracle harness for the `turmoil` crate (area "core").
+//!
+//! `tv-sim <PROP> --tier quick|thorough|search --seed N --out FILE [--replay CASEFILE] [--cases N]`
+
+mod common;
+mod families;
+mod script;
+
+use std::io::Write;
+use std::panic::{catch_unwind, AssertUnwindSafe};
+
+use common::*;
+use script::*;
+
+pub struct Family {
+    pub name: &'static str,
+    pub cfg: fn(&mut Rng) -> CaseCfg,
+    pub run: fn(&mut Case, &mut Rng),
+}
+
+fn run_case(n: usize, fam: &Family, seed: u64, out: &mut impl Write) {
+    let mut rng = Rng::new(seed);
+    let cfg = (fam.cfg)(&mut rng);
+    log(format!("CASE {n} family={} seed={seed}", fam.name));
+    set_capture(true);
+    let r = catch_unwind(AssertUnwindSafe(|| {
+        let mut case = Case::new(cfg);
+        (fam.run)(&mut case, &mut rng);
+    }));
+    set_capture(false);
+    if r.is_err() {
+        for (k, v) in turmoil::verif::drain_decisions() {
+            log(format!("ORA {k} {v}"));
+        }
+        log("OBS panic".into());
+    }
+    log("END".into());
+    for l in take_log() {
+        writeln!(out, "{l}").unwrap();
+    }
+}
+
+fn replay_case(path: &str, out: &mut impl Write) {
+    let text = std::fs::read_to_string(path).expect("case file");
+    let mut cfg = CaseCfg::default();
+    let mut header = "CASE 0 family=replay seed=0".to_string();
+    let mut ctl: Vec<String> = Vec::new();
+    for l in text.lines() {
+        if l.starts_with("CASE ") {
+            header = l.to_string();
+        } else if l.starts_with("CFG ") {
+            cfg = CaseCfg::parse(l);
+        } else if let Some(rest) = l.strip_prefix("OP ctl ") {
+            if !rest.starts_with("reg ") {
+                ctl.push(rest.to_string());
+            }
+        }
+    }
+    log(header);
+    set_capture(true);
+    let r = catch_unwind(AssertUnwindSafe(|| {
+        let mut case = Case::new(cfg);
+        for c in &ctl {
+            case.ctl(c);
+        }
+    }));
+    set_capture(false);
+    if r.is_err() {
+        for (k, v) in turmoil::verif::drain_decisions() {
+            log(format!("ORA {k} {v}"));
+        }
+        log("OBS panic".into());
+    }
+    log("END".into());
+    for l in take_log() {
+        writeln!(out, "{l}").unwrap();
+    }
+}
+
 fn main() {
-    let _ = turmoil::verif::drain_decisions();
-    println!("ok");
+    let args: Vec<String> = std::env::args().collect();
+    if args.len() < 2 {
+        eprintln!("usage: tv-sim <PROP> --tier T --seed N --out FILE [--replay F] [--cases N]");
+        std::process::exit(2);
+    }
+    let prop = args[1].clone();
+    let mut tier = "quick".to_string();
+    let mut seed: u64 = 1;
+    let mut out_path = String::new();
+    let mut replay: Option<String> = None;
+    let mut cases: Option<usize> = None;
+    let mut i = 2;
+    while i < args.len() {
+        match args[i].as_str() {
+            "--tier" => { tier = args[i + 1].clone(); i += 2; }
+            "--seed" => { seed = args[i + 1].parse().unwrap_or(1); i += 2; }
+            "--out" => { out_path = args[i + 1].clone(); i += 2; }
+            "--replay" => { replay = Some(args[i + 1].clone()); i += 2; }
+            "--cases" => { cases = Some(args[i + 1].parse().unwrap()); i += 2; }
+            _ => { i += 1; }
+        }
+    }
+    std::panic::set_hook(Box::new(|_| {}));
+    tracing::subscriber::set_global_default(Capture).expect("subscriber");
+    let file = std::fs::File::create(&out_path).expect("out file");
+    let mut out = std::io::BufWriter::new(file);
+
+    if let Some(path) = replay {
+        replay_case(&path, &mut out);
+        out.flush().unwrap();
+        return;
+    }
+
+    let fams = families::families_for(&prop);
+    if fams.is_empty() {
+        eprintln!("no families for {prop}");
+        std::process::exit(2);
+    }
+    let default_cases = match tier.as_str() {
+        "quick" => 300,
+        "search" => 3000,
+        _ => 10000,
+    };
+    let total = cases.unwrap_or(default_cases);
+    let mut master = Rng::new(seed);
+    let mut hist = std::collections::BTreeMap::<&str, usize>::new();
+    let mut n = 0;
+    // exhaustive families first (they ignore the case budget), then random ones
+    for fam in fams.iter() {
+        let quota = (total / fams.len()).max(1);
+        for _ in 0..quota {
+            let s = master.next();
+            run_case(n, fam, s, &mut out);
+            *hist.entry(fam.name).or_default() += 1;
+            n += 1;
+        }
+    }
+    out.flush().unwrap();
+    eprintln!("tv-sim {prop} tier={tier} seed={seed} cases={n} families={hist:?}");
 }
